@@ -24,6 +24,7 @@ import (
 	"fmt"
 	"os"
 	"path/filepath"
+	"regexp"
 	"sort"
 	"strconv"
 	"strings"
@@ -550,11 +551,24 @@ func c09CssWitness(src string, reply string) string {
 			}
 		}
 		if !ok {
-			a := p - 12
+			a := p - 24
 			if a < 0 {
 				a = 0
 			}
-			e := p + 12
+			e := p + 24
+			if e > len(src) {
+				e = len(src)
+			}
+			// `--` starts an identifier in CSS Syntax 3 (`0.50-->` = dimension `0.50--` + `>`), `u+1calc(` = `u` + dimension
+			// `+1calc` + `(`; a backslash at the end of the input is an identifier
+			win := src[a:e]
+			if strings.Contains(win, "--") || strings.Contains(win, "u+") || strings.Contains(win, "U+") || strings.Contains(win, "\\") {
+				continue
+			}
+			a, e = p-12, p+12
+			if a < 0 {
+				a = 0
+			}
 			if e > len(src) {
 				e = len(src)
 			}
@@ -566,13 +580,25 @@ func c09CssWitness(src string, reply string) string {
 
 // ---------- known findings of this slice (narrow syntactic triggers on the INPUT) ----------
 
-func c09CssTrigger(k c09CssCase, in []c09CssTok, inOpen bool) string {
+func c09CssTrigger(k c09CssCase, in []c09CssTok, inOpen bool) []string {
+	var ids []string
+	add := func(id string) {
+		for _, x := range ids {
+			if x == id {
+				return
+			}
+		}
+		ids = append(ids, id)
+	}
 	src := k.src
 	if inOpen {
-		return "K-C09-CSS-8" // the input ends inside a string / url / escape: the appended `}` is swallowed
+		add("K-C09-CSS-8") // the input ends inside a string / url / escape: the appended `}` is swallowed
+	}
+	if c09CssHexCRLF.MatchString(src) {
+		add("K-C09-CSS-11") // hex escape terminated by CRLF: the dependency lexer takes the CR only
 	}
 	if c09CssStrayCloser(in) {
-		return "K-C09-CSS-9" // unmatched `)` / `]` in a declaration: error recovery of the dependency parser
+		add("K-C09-CSS-9") // unmatched `)` / `]` in a declaration: error recovery of the dependency parser
 	}
 	if c09CssCount(in, c09CssBadURL) == 0 && strings.Contains(strings.ToLower(src), "url(") {
 		// `url("a" x)`: function + string + more in CSS Syntax 3, a bad-url up to the FIRST `)` for the dependency lexer,
@@ -584,7 +610,7 @@ func c09CssTrigger(k c09CssCase, in []c09CssTok, inOpen bool) string {
 				break
 			}
 			if tt == pcss.BadURLToken {
-				return "K-C09-CSS-9"
+				add("K-C09-CSS-9")
 			}
 		}
 	}
@@ -619,7 +645,7 @@ func c09CssTrigger(k c09CssCase, in []c09CssTok, inOpen bool) string {
 					if j >= 0 {
 						switch strings.ToLower(in[j].lex) {
 						case "rgb(", "rgba(", "hsl(", "hsla(":
-							return "K-C09-CSS-1"
+							add("K-C09-CSS-1")
 						}
 					}
 				}
@@ -628,17 +654,17 @@ func c09CssTrigger(k c09CssCase, in []c09CssTok, inOpen bool) string {
 		// K2: a number that is re-spelt (`1.0` -> `1`, `.0` -> `0`, `+1` -> `1`) directly next to a token it then glues to
 		if depth > 0 && c09CssIsNum(t.tt) {
 			if tight(i+1) && c09CssIsNum(in[i+1].tt) && in[i+1].lex[0] == '.' {
-				return "K-C09-CSS-2"
+				add("K-C09-CSS-2")
 			}
 			if i > 0 && tight(i) && (word(in[i-1]) && in[i-1].tt != c09CssFunction && in[i-1].tt != c09CssURL) {
-				return "K-C09-CSS-2"
+				add("K-C09-CSS-2")
 			}
 		}
 	}
 	for i, t := range in {
 		// a lone backslash (in front of a newline)
 		if t.tt == c09CssDelim && t.lex == "\\" {
-			return "K-C09-CSS-3"
+			add("K-C09-CSS-3")
 		}
 		if i+1 >= len(in) {
 			break
@@ -646,11 +672,11 @@ func c09CssTrigger(k c09CssCase, in []c09CssTok, inOpen bool) string {
 		n := in[i+1]
 		// `<` `!` `--`: white space around `!` is dropped by the parser
 		if t.tt == c09CssDelim && t.lex == "<" && n.tt == c09CssDelim && n.lex == "!" {
-			return "K-C09-CSS-3"
+			add("K-C09-CSS-3")
 		}
 		// K10: a name ending in a hex escape without its terminating white space, a comment, a name character
-		if (t.tt == c09CssIdent || t.tt == c09CssHash || t.tt == c09CssDimension || t.tt == c09CssAtKeyword) && n.cmt && c09CssOpenHexEscape(t.lex) && (word(n) || (n.tt == c09CssDelim && n.lex == "-")) {
-			return "K-C09-CSS-10"
+		if (t.tt == c09CssIdent || t.tt == c09CssHash || t.tt == c09CssDimension || t.tt == c09CssAtKeyword) && n.cmt && c09CssOpenHexEscape(t.lex) && (c09CssNameByte(n.lex[0]) || n.tt == c09CssLParen) {
+			add("K-C09-CSS-10")
 		}
 	}
 	if strings.Contains(src, "*/") {
@@ -658,7 +684,7 @@ func c09CssTrigger(k c09CssCase, in []c09CssTok, inOpen bool) string {
 		for i := 1; i < len(in); i++ {
 			a, b := in[i-1], in[i]
 			if !b.ws && b.cmt && c09CssWouldMerge(a, b) {
-				return "K-C09-CSS-5"
+				add("K-C09-CSS-5")
 			}
 		}
 	}
@@ -671,9 +697,9 @@ func c09CssTrigger(k c09CssCase, in []c09CssTok, inOpen bool) string {
 			inAttr = false
 		} else if inAttr && i > 0 && t.ws && (t.tt == c09CssIdent || c09CssIsNum(t.tt)) && !(len(t.lex) == 1 && (t.lex == "i" || t.lex == "I")) &&
 			(in[i-1].tt == c09CssIdent || in[i-1].tt == c09CssString || c09CssIsNum(in[i-1].tt) || in[i-1].tt == c09CssHash) {
-			return "K-C09-CSS-4"
+			add("K-C09-CSS-4")
 		} else if inAttr && i > 0 && t.ws && t.tt == c09CssIdent && in[i-1].tt == c09CssString && strings.Contains(in[i-1].lex, "\\") {
-			return "K-C09-CSS-4" // `[a="b\31" i]`: the unquoted value ends in a hex escape that swallows the space
+			add("K-C09-CSS-4") // `[a="b\31" i]`: the unquoted value ends in a hex escape that swallows the space
 		}
 	}
 	low := strings.ToLower(src)
@@ -683,12 +709,18 @@ func c09CssTrigger(k c09CssCase, in []c09CssTok, inOpen bool) string {
 				v := strings.TrimSpace(in[i+1].lex[4:])
 				v = strings.TrimSpace(strings.TrimSuffix(v, ")"))
 				if len(v) == 1 {
-					return "K-C09-CSS-6"
+					add("K-C09-CSS-6")
 				}
 			}
 		}
 	}
-	return ""
+	return ids
+}
+
+var c09CssHexCRLF = regexp.MustCompile(`\\[0-9a-fA-F]{1,6}\r\n`)
+
+func c09CssNameByte(c byte) bool {
+	return c == '-' || c == '_' || c == '\\' || c >= 0x80 || (c >= '0' && c <= '9') || (c >= 'a' && c <= 'z') || (c >= 'A' && c <= 'Z')
 }
 
 // lexeme ends in `\` + 1–6 hex digits (no terminating white space)
@@ -732,6 +764,38 @@ func c09CssStrayCloser(ts []c09CssTok) bool {
 			}
 			st = st[:len(st)-1]
 		}
+	}
+	return false
+}
+
+func c09CssExplained(ids []string, failed string) string {
+	for _, id := range ids {
+		if c09CssKnownExplains(id, failed) {
+			return id
+		}
+	}
+	return ""
+}
+
+// which failure signatures a known finding accounts for (a failure with another signature is still a failure)
+func c09CssKnownExplains(id, failed string) bool {
+	written := strings.HasPrefix(failed, "tokens of the written value")
+	outside := strings.HasPrefix(failed, "token stream outside declaration values")
+	value := strings.HasPrefix(failed, "string/url value")
+	open := strings.HasPrefix(failed, "output ends inside")
+	switch id {
+	case "K-C09-CSS-1", "K-C09-CSS-2", "K-C09-CSS-10":
+		return written
+	case "K-C09-CSS-3":
+		return written || open || strings.HasPrefix(failed, "brackets balanced") || outside // `\` + newline + `}` becomes `\}`
+	case "K-C09-CSS-4", "K-C09-CSS-5":
+		return outside
+	case "K-C09-CSS-6":
+		return value || outside
+	case "K-C09-CSS-11":
+		return written || value || outside
+	case "K-C09-CSS-8", "K-C09-CSS-9":
+		return true // error recovery on malformed input: any of the checks may notice
 	}
 	return false
 }
@@ -1073,24 +1137,24 @@ func c09CssRunCases(c *Ctx, st *h.Stage, cases []c09CssCase) error {
 			st.Tag("second-pass=fixed-point")
 		} else if r.err2 == nil && r.crash2 == "" {
 			st.Tag("second-pass=differs")
-			if failed == "" && known == "" {
+			if failed == "" && len(known) == 0 {
 				// the second pass must be a valid minification of the first output
 				c09CssSecond = append(c09CssSecond, c09CssCase{src: r.out, inline: k.inline, css2: k.css2, prec: k.prec, tag: "second-pass"})
 			}
 		}
 		if failed != "" {
-			if known != "" {
+			if id := c09CssExplained(known, failed); id != "" {
 				c.R.ExcludedKnown++
-				st.Tag("known=" + known)
+				st.Tag("known=" + id)
 			} else {
 				if os.Getenv("C09CSS_DEBUG") != "" {
 					fmt.Fprintf(os.Stderr, "FAIL %s | %q => %q | %s\n", failed, trunc([]byte(k.src), 300), trunc([]byte(r.out), 300), k.cfg())
 				}
 				c.R.Add(h.Finding{Stage: st.Name, Kind: "fail", What: failed, Input: k.src, Hex: h.HexS(k.src), Config: k.cfg(), Impl: r.out})
 			}
-		} else if known != "" {
+		} else if len(known) > 0 {
 			c.R.ExcludedKnown++
-			st.Tag("known=" + known)
+			st.Tag("trigger-without-failure=" + known[0])
 		}
 	}
 	return nil
